@@ -35,6 +35,7 @@ type Path struct {
 	Prefix  []dec
 	Decs    []dec
 	Nondets []NondetRec
+	Picks   []int // concrete choices made by vs.Pick on this path, in order
 	unknown bool
 	// abstraction of expensive operators (see abstractURem): exact definitions, added when a model matters
 	Exact    []*smt.Term
@@ -57,6 +58,7 @@ type Violation struct {
 	// the tape reproduces the path that reaches the source.
 	NoNativeReplay bool
 	Case           int
+	PickSig        string // the vs.Pick choices of the path (candidate diversity)
 }
 
 type TapeEntry struct {
@@ -447,7 +449,42 @@ type workList struct {
 	items   [][]dec
 	active  int
 	reached map[string]bool // Reach labels already witnessed by some worker of this job
+	ctl     *runCtl
 }
+
+// runCtl is shared by all workers of one harness run. After the first violation the exploration continues
+// for a short grace period only (to collect alternative counterexamples for the native replay), and a wall
+// budget bounds the whole harness.
+type runCtl struct {
+	stopAt int64 // unix nanoseconds; 0 = not set
+	budget int64 // unix nanoseconds; 0 = none
+}
+
+const violationGrace = 45 * time.Second
+
+func (c *runCtl) noteViolation() {
+	if c == nil {
+		return
+	}
+	atomic.CompareAndSwapInt64(&c.stopAt, 0, time.Now().Add(violationGrace).UnixNano())
+}
+
+// expired: 1 = stop after a violation, 2 = wall budget exceeded
+func (c *runCtl) expired() int {
+	if c == nil {
+		return 0
+	}
+	now := time.Now().UnixNano()
+	if t := atomic.LoadInt64(&c.stopAt); t != 0 && now > t {
+		return 1
+	}
+	if c.budget != 0 && now > c.budget {
+		return 2
+	}
+	return 0
+}
+
+const maxCandidatesPerLabel = 4
 
 func (w *workList) isReached(label string) bool {
 	w.mu.Lock()
@@ -594,6 +631,15 @@ func (it *Interp) Assert(label string, c *smt.Term) {
 		os.WriteFile("/tmp/assert_"+label+".txt", []byte(it.C.String(c)), 0o644)
 		smt.MaxPrintDepth = old
 	}
+	if err != nil || r == smt.Unknown {
+		// the solver gave up (typically non-linear integer arithmetic): a concrete assignment that satisfies the
+		// whole path condition and the negated assertion is a counterexample all the same
+		if env := it.sampleWitnessN(neg, 6000); env != nil {
+			it.recordViolationTape(label, "assert", "assertion "+label+" can fail (counterexample found by concrete evaluation after the solver answered unknown)", it.tapeFromEnv(env))
+			it.Assume(c)
+			return
+		}
+	}
 	switch {
 	case err != nil || r == smt.Unknown:
 		it.jr.Inconclusive = append(it.jr.Inconclusive, fmt.Sprintf("assert %s: solver %v %v", label, r, err))
@@ -609,11 +655,32 @@ func (it *Interp) Assert(label string, c *smt.Term) {
 	it.Assume(c)
 }
 
+// tapeFromEnv turns a concrete assignment found by the sampler into a replay tape.
+func (it *Interp) tapeFromEnv(env map[*smt.Term]*smt.Term) []TapeEntry {
+	tape := make([]TapeEntry, len(it.P.Nondets))
+	for i, n := range it.P.Nondets {
+		v := big.NewInt(0)
+		if cv, ok := env[n.T]; ok && cv != nil && cv.IsConst() {
+			v = cv.Val
+		}
+		tape[i] = TapeEntry{Label: n.Label, Kind: n.Kind, Value: v.String()}
+	}
+	return tape
+}
+
 func (it *Interp) recordViolation(label, kind, msg, known string) {
 	tape, _, err := it.tapeFromModel()
 	if err != nil {
 		it.jr.Inconclusive = append(it.jr.Inconclusive, "model extraction: "+err.Error())
 	}
+	it.recordViolationKnown(label, kind, msg, known, tape)
+}
+
+func (it *Interp) recordViolationTape(label, kind, msg string, tape []TapeEntry) {
+	it.recordViolationKnown(label, kind, msg, "", tape)
+}
+
+func (it *Interp) recordViolationKnown(label, kind, msg, known string, tape []TapeEntry) {
 	v := &Violation{Harness: it.jr.Harness, Label: label, Kind: kind, Msg: msg, Tape: tape, Known: known, Path: it.pathBools(), Case: it.caseN}
 	if known != "" {
 		if it.jr.KnownHits == nil {
@@ -624,13 +691,26 @@ func (it *Interp) recordViolation(label, kind, msg, known string) {
 		}
 		return
 	}
-	// keep one violation per label
+	// keep a few counterexamples per label (a counterexample that depends on the solver's choice of an
+	// uninterpreted hash value does not reproduce natively; another one of the same label may)
+	// ... and keep them diverse: one per combination of vs.Pick choices
+	v.PickSig = fmt.Sprint(it.caseN, it.P.Picks)
+	n := 0
 	for _, o := range it.jr.Violations {
 		if o.Label == label {
-			return
+			n++
+			if o.PickSig == v.PickSig {
+				return
+			}
 		}
 	}
+	if n >= maxCandidatesPerLabel {
+		return
+	}
 	it.jr.Violations = append(it.jr.Violations, v)
+	if it.work != nil {
+		it.work.ctl.noteViolation()
+	}
 }
 
 // Reach records that label is feasibly reached with cond.
@@ -646,14 +726,7 @@ func (it *Interp) Reach(label string, c *smt.Term) {
 	}
 	if env := it.sampleWitness(c); env != nil {
 		// a concrete witness found by sampling: no solver call needed
-		tape := make([]TapeEntry, len(it.P.Nondets))
-		for i, n := range it.P.Nondets {
-			v := big.NewInt(0)
-			if cv, ok := env[n.T]; ok && cv != nil && cv.IsConst() {
-				v = cv.Val
-			}
-			tape[i] = TapeEntry{Label: n.Label, Kind: n.Kind, Value: v.String()}
-		}
+		tape := it.tapeFromEnv(env)
 		if it.work != nil {
 			it.work.markReached(label)
 		}
@@ -722,6 +795,12 @@ func (w *Worker) RunJob(j job, solverBin string, shared *workList, jr *JobResult
 	}
 	it.caseN = j.caseN
 	for {
+		if e := shared.ctl.expired(); e != 0 {
+			if e == 2 {
+				local.Inconclusive = append(local.Inconclusive, "wall budget of the harness exceeded: exploration incomplete")
+			}
+			break
+		}
 		prefix, ok, finished := shared.pop()
 		if finished {
 			break
@@ -757,13 +836,16 @@ func (jr *JobResult) merge(o *JobResult) {
 	jr.Queries += o.Queries
 	jr.SolverTime += o.SolverTime
 	for _, v := range o.Violations {
-		dup := false
+		n := 0
 		for _, e := range jr.Violations {
 			if e.Label == v.Label {
-				dup = true
+				n++
+				if e.PickSig == v.PickSig {
+					n = maxCandidatesPerLabel
+				}
 			}
 		}
-		if !dup {
+		if n < maxCandidatesPerLabel {
 			jr.Violations = append(jr.Violations, v)
 		}
 	}
